@@ -27,6 +27,8 @@ pub enum TEv {
     Recheck { nth: u8 },
     /// environment: replace a grid file by a new version
     WriteGrid { grid: u8, version: u32 },
+    /// environment: remove a grid file (an op() may then fail, but only then)
+    DeleteGrid { grid: u8 },
 }
 
 #[derive(Serialize, Deserialize, Clone, Debug, PartialEq)]
@@ -43,7 +45,7 @@ pub struct PlanT {
 
 #[derive(Clone, Debug)]
 enum Obs {
-    Op { thread: usize, grid: u8, invoke: u64, ret: u64, version: Result<f64, String> },
+    Op { thread: usize, grid: u8, both: bool, invoke: u64, ret: u64, version: Result<f64, String> },
     Clear { invoke: u64, ret: u64 },
     Write { grid: u8, version: u32, invoke: u64, ret: u64 },
     Shared { thread: usize, op: u8, ok: Result<(), String> },
@@ -131,7 +133,7 @@ fn body(plan: Arc<PlanT>, root: PathBuf, log: Arc<Mutex<Vec<Obs>>>) {
                             }
                             Err(e) => Err(e.to_string()),
                         };
-                        log.lock().unwrap().push(Obs::Op { thread: t, grid, invoke, ret, version });
+                        log.lock().unwrap().push(Obs::Op { thread: t, grid, both: false, invoke, ret, version });
                     }
                     TEv::OpBoth => {
                         let invoke = tick();
@@ -148,7 +150,7 @@ fn body(plan: Arc<PlanT>, root: PathBuf, log: Arc<Mutex<Vec<Obs>>>) {
                             Err(e) => Err(e.to_string()),
                         };
                         // the first grid listed decides the value
-                        log.lock().unwrap().push(Obs::Op { thread: t, grid: 0, invoke, ret, version });
+                        log.lock().unwrap().push(Obs::Op { thread: t, grid: 0, both: true, invoke, ret, version });
                     }
                     TEv::ApplyShared { op } => {
                         if shared_ops.is_empty() {
@@ -182,6 +184,14 @@ fn body(plan: Arc<PlanT>, root: PathBuf, log: Arc<Mutex<Vec<Obs>>>) {
                         let _ = std::fs::write(root_dir(&root, 0).join("geoid").join(name), grid_bytes(version));
                         let ret = tick();
                         log.lock().unwrap().push(Obs::Write { grid, version, invoke, ret });
+                    }
+                    TEv::DeleteGrid { grid } => {
+                        let name = GRID_NAMES[grid as usize % GRID_NAMES.len()];
+                        let invoke = tick();
+                        util::remove_any(&root_dir(&root, 0).join("geoid").join(name));
+                        let ret = tick();
+                        // version 0 stands for "absent"
+                        log.lock().unwrap().push(Obs::Write { grid, version: 0, invoke, ret });
                     }
                 }
             }
@@ -252,7 +262,7 @@ impl Engine for RegThreads {
                 "shuttle runs the threads as coroutines on one OS thread, so code between two scheduling points is atomic; scheduling points exist at every grid cache lock operation (hook) and between API calls (harness), not inside std::fs calls",
                 "which version a racing op() sees is not fixed by the property: any version on disk since the last completed clear began is accepted",
             ],
-            required_probes: &["op_concurrent_with_clear", "op_concurrent_with_write", "two_ops_race_for_load", "shared_apply_during_clear", "stale_version_served_from_cache", "pct_schedule", "random_schedule"],
+            required_probes: &["op_concurrent_with_clear", "op_concurrent_with_write", "two_ops_race_for_load", "shared_apply_during_clear", "stale_version_served_from_cache", "op_fails_while_file_absent", "pct_schedule", "random_schedule"],
             exhaustive: false,
         }
     }
@@ -282,9 +292,14 @@ impl Engine for RegThreads {
             let len = 1 + rng.below(6);
             let mut script = Vec::new();
             if t == 0 && with_env {
+                let deletes = rng.chance(0.4);
                 for _ in 0..len {
-                    script.push(TEv::WriteGrid { grid: rng.below(GRID_NAMES.len()) as u8, version });
-                    version += 1;
+                    if deletes && rng.chance(0.3) {
+                        script.push(TEv::DeleteGrid { grid: rng.below(GRID_NAMES.len()) as u8 });
+                    } else {
+                        script.push(TEv::WriteGrid { grid: rng.below(GRID_NAMES.len()) as u8, version });
+                        version += 1;
+                    }
                 }
             } else {
                 for _ in 0..len {
@@ -366,7 +381,7 @@ impl Engine for RegThreads {
         for o in &obs {
             rec.event();
             match o {
-                Obs::Op { thread, grid, invoke, ret, version } => {
+                Obs::Op { thread, grid, both, invoke, ret, version } => {
                     sig.str("O");
                     sig.u64(*thread as u64);
                     let g = *grid as usize % writes.len().max(1);
@@ -382,10 +397,29 @@ impl Engine for RegThreads {
                     }
                     match version {
                         Err(e) => {
+                            // admissible only if the file was absent at some instant during the call
+                            let ws = &writes[g];
+                            let mut absent_during_call = false;
+                            // an operator listing both grids needs both of them
+                            let needed: Vec<usize> = if *both { (0..writes.len()).collect() } else { vec![g] };
+                            for n in needed {
+                                let wn = &writes[n];
+                                for (k, (wv, wi, _)) in wn.iter().enumerate() {
+                                    let end = wn.get(k + 1).map(|x| x.2).unwrap_or(u64::MAX);
+                                    if *wv == 0.0 && *wi <= *ret && end >= *invoke {
+                                        absent_during_call = true;
+                                    }
+                                }
+                            }
+                            if absent_during_call {
+                                rec.probe("op_fails_while_file_absent");
+                                sig.str("E");
+                                continue;
+                            }
                             rec.violate(
                                 "I-sched",
-                                "op() fails although its grid file is valid throughout (spurious error under concurrency)",
-                                format!("thread {} op on {} between events {} and {}: {}", thread, GRID_NAMES[g], invoke, ret, e),
+                                "op() fails although its grid file is present and valid throughout the call (spurious error under concurrency)",
+                                format!("thread {} op on {} between events {} and {}: {}; writes {:?}", thread, GRID_NAMES[g], invoke, ret, e, ws),
                             );
                             break;
                         }
@@ -398,7 +432,7 @@ impl Engine for RegThreads {
                             for (k, (wv, wi, _wr)) in ws.iter().enumerate() {
                                 // version k is on disk from the start of its write to the end of the next one
                                 let end = ws.get(k + 1).map(|n| n.2).unwrap_or(u64::MAX);
-                                if *wv == *v && *wi <= *ret && end >= lo {
+                                if *wv != 0.0 && *wv == *v && *wi <= *ret && end >= lo {
                                     admissible = true;
                                 }
                             }
@@ -440,7 +474,7 @@ impl Engine for RegThreads {
                     sig.str("W");
                     sig.u64(*grid as u64);
                     sig.u64(*version as u64);
-                    rec.fault("grid_file_replaced_by_environment_thread");
+                    rec.fault(if *version == 0 { "grid_file_deleted_by_environment_thread" } else { "grid_file_replaced_by_environment_thread" });
                 }
             }
         }
@@ -455,6 +489,9 @@ impl Engine for RegThreads {
                 };
                 rec.violate(inv, &msg, format!("{} (scheduler {} seed {})", p, plan.scheduler % 2, plan.scheduler_seed));
             }
+            // the abandoned coroutines may still hold the grid cache lock (their guards
+            // are never dropped): nothing run in this process afterwards can be trusted
+            rec.tainted = true;
         }
         let concurrent = plan.threads.len() >= 2 && obs.iter().any(|o| matches!(o, Obs::Clear { .. } | Obs::Write { .. }));
         if concurrent {
